@@ -1029,44 +1029,34 @@ where
         for packet in packets {
             match &packet {
                 GenericStorePacket::V3_1_1Publish(p) => {
-                    // Add to appropriate QoS tracking set
-                    match p.qos() {
-                        Qos::AtLeastOnce => {
-                            self.pid_puback.insert(p.packet_id().unwrap());
-                        }
-                        Qos::ExactlyOnce => {
-                            self.pid_pubrec.insert(p.packet_id().unwrap());
-                        }
-                        _ => {
-                            // QoS 0 shouldn't be in store, but handle gracefully
-                            warn!("QoS 0 packet found in store, skipping");
-                            continue;
-                        }
+                    let qos = p.qos();
+                    if qos == Qos::AtMostOnce {
+                        // QoS 0 shouldn't be in store, but handle gracefully
+                        warn!("QoS 0 packet found in store, skipping");
+                        continue;
                     }
                     // Register packet ID and add to store
                     let packet_id = p.packet_id().unwrap();
                     if self.pid_man.register_id(packet_id).is_ok() {
                         if let Err(_e) = self.store.add(packet) {
                             error!("Failed to add packet to store: {:?}", _e);
+                        }
+                        // Add to appropriate QoS tracking set (a skipped packet leaves no trace)
+                        if qos == Qos::AtLeastOnce {
+                            self.pid_puback.insert(packet_id);
+                        } else {
+                            self.pid_pubrec.insert(packet_id);
                         }
                     } else {
                         error!("Packet ID {} has already been used. Skip it", packet_id);
                     }
                 }
                 GenericStorePacket::V5_0Publish(p) => {
-                    // Add to appropriate QoS tracking set
-                    match p.qos() {
-                        Qos::AtLeastOnce => {
-                            self.pid_puback.insert(p.packet_id().unwrap());
-                        }
-                        Qos::ExactlyOnce => {
-                            self.pid_pubrec.insert(p.packet_id().unwrap());
-                        }
-                        _ => {
-                            // QoS 0 shouldn't be in store, but handle gracefully
-                            warn!("QoS 0 packet found in store, skipping");
-                            continue;
-                        }
+                    let qos = p.qos();
+                    if qos == Qos::AtMostOnce {
+                        // QoS 0 shouldn't be in store, but handle gracefully
+                        warn!("QoS 0 packet found in store, skipping");
+                        continue;
                     }
                     // Register packet ID and add to store
                     let packet_id = p.packet_id().unwrap();
@@ -1074,32 +1064,38 @@ where
                         if let Err(_e) = self.store.add(packet) {
                             error!("Failed to add packet to store: {:?}", _e);
                         }
+                        // Add to appropriate QoS tracking set (a skipped packet leaves no trace)
+                        if qos == Qos::AtLeastOnce {
+                            self.pid_puback.insert(packet_id);
+                        } else {
+                            self.pid_pubrec.insert(packet_id);
+                        }
                     } else {
                         error!("Packet ID {} has already been used. Skip it", packet_id);
                     }
                 }
                 GenericStorePacket::V3_1_1Pubrel(p) => {
-                    // Pubrel packets expect PUBCOMP response
-                    self.pid_pubcomp.insert(p.packet_id());
                     // Register packet ID and add to store
                     let packet_id = p.packet_id();
                     if self.pid_man.register_id(packet_id).is_ok() {
                         if let Err(_e) = self.store.add(packet) {
                             error!("Failed to add packet to store: {:?}", _e);
                         }
+                        // Pubrel packets expect PUBCOMP response (a skipped packet leaves no trace)
+                        self.pid_pubcomp.insert(packet_id);
                     } else {
                         error!("Packet ID {} has already been used. Skip it", packet_id);
                     }
                 }
                 GenericStorePacket::V5_0Pubrel(p) => {
-                    // Pubrel packets expect PUBCOMP response
-                    self.pid_pubcomp.insert(p.packet_id());
                     // Register packet ID and add to store
                     let packet_id = p.packet_id();
                     if self.pid_man.register_id(packet_id).is_ok() {
                         if let Err(_e) = self.store.add(packet) {
                             error!("Failed to add packet to store: {:?}", _e);
                         }
+                        // Pubrel packets expect PUBCOMP response (a skipped packet leaves no trace)
+                        self.pid_pubcomp.insert(packet_id);
                     } else {
                         error!("Packet ID {} has already been used. Skip it", packet_id);
                     }
